@@ -10,7 +10,7 @@ use super::{
     Call, BUFFER_SIZE, MAX_BUFFER_SIZE,
 };
 use alloc::vec::Vec;
-use serde::Deserialize;
+use serde::{de::Visitor, Deserialize, Deserializer};
 
 /// A connection that can only be used for reading.
 ///
@@ -86,8 +86,9 @@ impl<Read: ReadHalf> ReadConnection<Read> {
         }
 
         match self
-            .read_message::<ReplyMsg<ReplyParams, ReplyError>>()
+            .read_message::<Object<ReplyMsg<ReplyParams, ReplyError>>>()
             .await?
+            .0
         {
             // Varlink service interface error need to be returned as the top-level error.
             ReplyMsg::Varlink(e) => Err(crate::Error::VarlinkService(e)),
@@ -202,6 +203,52 @@ impl<Read: ReadHalf> ReadConnection<Read> {
     #[doc(hidden)]
     pub fn verif_read_half_mut(&mut self) -> &mut Read {
         &mut self.socket
+    }
+}
+
+/// A message that is only deserialized from a JSON object.
+///
+/// Replies are objects. The `Deserialize` impls that `serde` derives for the error enums and for
+/// `Reply` also accept their sequence form (e.g. `["org.example.SomeError", null]`), which is not a
+/// Varlink message and must not be taken for one.
+#[derive(Debug)]
+struct Object<T>(T);
+
+impl<'de, T> Deserialize<'de> for Object<T>
+where
+    T: Deserialize<'de>,
+{
+    fn deserialize<D>(deserializer: D) -> core::result::Result<Self, D::Error>
+    where
+        D: Deserializer<'de>,
+    {
+        T::deserialize(ObjectDeserializer(deserializer)).map(Object)
+    }
+}
+
+/// Hands the underlying value to the visitor only if it is a map.
+struct ObjectDeserializer<D>(D);
+
+impl<'de, D> Deserializer<'de> for ObjectDeserializer<D>
+where
+    D: Deserializer<'de>,
+{
+    type Error = D::Error;
+
+    fn deserialize_any<V>(self, visitor: V) -> core::result::Result<V::Value, D::Error>
+    where
+        V: Visitor<'de>,
+    {
+        self.0.deserialize_map(visitor)
+    }
+
+    fn is_human_readable(&self) -> bool {
+        self.0.is_human_readable()
+    }
+
+    serde::forward_to_deserialize_any! {
+        bool i8 i16 i32 i64 i128 u8 u16 u32 u64 u128 f32 f64 char str string bytes byte_buf option
+        unit unit_struct newtype_struct seq tuple tuple_struct map struct enum identifier ignored_any
     }
 }
 
